@@ -26,10 +26,11 @@ type Params struct {
 	LateSub                  bool // a fourth subscriber {a,b} is started by the publisher after its first message
 	Racing                   bool // publishing starts at once instead of after the three subscriptions reached Joe's loop
 	TwoPubs                  bool // the messages are split between two publisher threads (odd / even)
+	WithLastID               bool // every subscriber presents a Last-Event-ID
 }
 
 func (p Params) Name() string {
-	return fmt.Sprintf("fail%d@%d-put%d/%d-replay%d/%d-msgs%d-slow%v-late%v-racing%v-ob%d", p.FailSub, p.FailAt, p.PutFailAt, p.PutKind, p.ReplayFailAt, p.ReplayKind, p.NMsg, p.Slow, p.LateSub, p.Racing, p.Orders) + map[bool]string{true: "-twopubs", false: ""}[p.TwoPubs]
+	return fmt.Sprintf("fail%d@%d-put%d/%d-replay%d/%d-msgs%d-slow%v-late%v-racing%v-ob%d", p.FailSub, p.FailAt, p.PutFailAt, p.PutKind, p.ReplayFailAt, p.ReplayKind, p.NMsg, p.Slow, p.LateSub, p.Racing, p.Orders) + map[bool]string{true: "-twopubs", false: ""}[p.TwoPubs] + map[bool]string{true: "-lastid", false: ""}[p.WithLastID]
 }
 
 type world struct {
@@ -38,6 +39,8 @@ type world struct {
 	Subs []*jo.Sub
 	Msgs []*jo.Msg
 	Shut error
+	// resume-fails scenarios: number of events the resuming subscribers missed
+	Missed int
 }
 
 var subTopics = [][]string{{"a"}, {"a", "b"}, {"b"}, {"b", "a"}}
@@ -65,7 +68,11 @@ func body(p Params) func() {
 			rec := &jo.Sub{W: wr, Topics: subTopics[i]}
 			w.Subs = append(w.Subs, rec)
 			subs = append(subs, vrt.GoNamed(name, func() {
-				err := j.Subscribe(ctx, sse.Subscription{Client: wr, Topics: subTopics[i]})
+				sub := sse.Subscription{Client: wr, Topics: subTopics[i]}
+				if p.WithLastID {
+					sub.LastEventID = sse.ID("seen")
+				}
+				err := j.Subscribe(ctx, sub)
 				ret.Poke(1)
 				rec.Returned, rec.Err = true, err
 			}))
@@ -124,7 +131,7 @@ func body(p Params) func() {
 
 // resumeFailBody: a subscriber resumes from the first of three buffered events through a REAL replayer and its
 // writer fails during the replay (at its failAt-th call); a healthy subscriber resumes at the same time.
-func resumeFailBody(valid, auto bool, failAt int) func() {
+func resumeFailBody(valid, auto bool, failAt int, wrapped bool) func() {
 	return func() {
 		w := &world{JL: &jh.JoeLog{}}
 		vrt.SetUser(w)
@@ -141,11 +148,22 @@ func resumeFailBody(valid, auto bool, failAt int) func() {
 		w.R = &jh.Replayer{JL: w.JL, Inner: inner}
 		j := &sse.Joe{Replayer: w.R}
 		jh.PreInitFor(j, auto)
-		ids := []string{"e0", "e1", "e2", "e3"}
-		if auto {
-			ids = []string{"0", "1", "2", "3"}
+		// wrapped (finite, capacity 4): five events, so the ring holds h4 h1 h2 h3 in its slots; resuming from h2 makes
+		// the replay start in the last slot and continue from slot 0 (the live publish evicts only h1)
+		hist, from := 3, 0
+		if wrapped {
+			hist, from = 5, 2
 		}
-		for k := 0; k < 3; k++ {
+		w.Missed = hist - 1 - from
+		var ids []string
+		for k := 0; k <= hist; k++ {
+			if auto {
+				ids = append(ids, fmt.Sprint(k))
+			} else {
+				ids = append(ids, fmt.Sprintf("e%d", k))
+			}
+		}
+		for k := 0; k < hist; k++ {
 			r := &jo.Msg{Tag: fmt.Sprintf("h%d", k), Topics: []string{"a"}, Seq: k}
 			w.Msgs = append(w.Msgs, r)
 			m := jh.Msg(r.Tag, "")
@@ -164,10 +182,10 @@ func resumeFailBody(valid, auto bool, failAt int) func() {
 			if i == 0 {
 				wr.FailAt = failAt
 			}
-			rec := &jo.Sub{W: wr, Topics: []string{"a"}, LastID: ids[0], HasLastID: true}
+			rec := &jo.Sub{W: wr, Topics: []string{"a"}, LastID: ids[from], HasLastID: true}
 			w.Subs = append(w.Subs, rec)
 			subs = append(subs, vrt.GoNamed(name, func() {
-				err := j.Subscribe(ctx, sse.Subscription{Client: wr, Topics: rec.Topics, LastEventID: sse.ID(ids[0])})
+				err := j.Subscribe(ctx, sse.Subscription{Client: wr, Topics: rec.Topics, LastEventID: sse.ID(ids[from])})
 				ret.Poke(1)
 				rec.Returned, rec.Err = true, err
 			}))
@@ -177,7 +195,7 @@ func resumeFailBody(valid, auto bool, failAt int) func() {
 		pub := vrt.GoNamed("P", func() {
 			m := jh.Msg("p1", "")
 			if !auto {
-				m = jh.Msg("p1", ids[3])
+				m = jh.Msg("p1", ids[hist])
 			}
 			live.Err = j.Publish(m, append([]string(nil), live.Topics...))
 			live.Returned = true
@@ -207,8 +225,8 @@ func resumeCheck(r *vrt.Result) string {
 		if len(s.W.Events) == 0 && s.Err == sse.ErrProviderClosed {
 			continue // the final Shutdown came first: this subscription never reached Joe
 		}
-		if n != 2 && s.W.FirstErr == nil {
-			return fmt.Sprintf("%s resumed from the first buffered event but got %d of the 2 missed events while another subscriber's replay failed (calls %v)", s.W.Name, n, s.W.Events)
+		if n != w.Missed && s.W.FirstErr == nil {
+			return fmt.Sprintf("%s resumed from a buffered event but got %d of the %d missed events while another subscriber's replay failed (calls %v)", s.W.Name, n, w.Missed, s.W.Events)
 		}
 	}
 	return ""
@@ -310,6 +328,13 @@ func Scenarios(tier string) []run.Scenario {
 			add(Params{FailSub: f, FailAt: 1, PutFailAt: sc.pa, PutKind: sc.pk, ReplayFailAt: sc.ra, ReplayKind: sc.rk, NMsg: 2, Racing: true})
 		}
 	}
+	// subscribers that present a Last-Event-ID while the replayer fails or panics in Replay or Put
+	for k := 1; k <= 3; k++ {
+		for kind := 0; kind <= 1; kind++ {
+			add(Params{ReplayFailAt: k, ReplayKind: kind, NMsg: 2, WithLastID: true})
+		}
+	}
+	add(Params{PutFailAt: 1, PutKind: 1, NMsg: 2, WithLastID: true})
 	// two publishers at once: every Publish gets the outcome of its own Put
 	for k := 1; k <= 3; k++ {
 		for kind := 0; kind <= 1; kind++ {
@@ -327,8 +352,12 @@ func Scenarios(tier string) []run.Scenario {
 		for _, auto := range []bool{false, true} {
 			for at := 1; at <= 4; at++ {
 				v, a, f := valid, auto, at
-				out = append(out, run.Scenario{Name: fmt.Sprintf("resume-fails-valid%v-auto%v-call%d", v, a, f), Body: resumeFailBody(v, a, f), Check: resumeCheck, Sig: sig, Summary: summary,
+				out = append(out, run.Scenario{Name: fmt.Sprintf("resume-fails-valid%v-auto%v-call%d", v, a, f), Body: resumeFailBody(v, a, f, false), Check: resumeCheck, Sig: sig, Summary: summary,
 					Opts: vrt.Options{PreemptBound: -1, FaultBound: -1, OrderBound: -1, Prune: true}})
+				if !v {
+					out = append(out, run.Scenario{Name: fmt.Sprintf("resume-fails-wrapped-auto%v-call%d", a, f), Body: resumeFailBody(v, a, f, true), Check: resumeCheck, Sig: sig, Summary: summary,
+						Opts: vrt.Options{PreemptBound: -1, FaultBound: -1, OrderBound: -1, Prune: true}})
+				}
 			}
 		}
 	}
@@ -349,7 +378,7 @@ func Scenarios(tier string) []run.Scenario {
 
 var Check = &run.Check{
 	ID: "C17", Level: "model_checking",
-	Rule: "Scenarios: three subscribers on {a}, {a,b}, {b} (optionally a fourth arriving later), one of which fails at its k-th Send/Flush call (subscriber and k enumerated), a publisher with 3-4 messages on a / a,b / b (or two publishers sharing them), and a recording replayer whose k-th Put or Replay returns an error or panics (enumerated); all interleavings (unbounded, state-key pruning); map iteration: all orders in the racing scenarios, and in the phased ones every permutation in up to 1 (thorough 2) fan-outs per execution with the canonical order elsewhere (ob in the scenario name), so the failing subscriber is visited first, in the middle and last in the fan-out that fails.",
+	Rule: "Scenarios: three subscribers on {a}, {a,b}, {b} (optionally a fourth arriving later), one of which fails at its k-th Send/Flush call (subscriber and k enumerated), a publisher with 3-4 messages on a / a,b / b (or two publishers sharing them), and a recording replayer whose k-th Put or Replay returns an error or panics (enumerated; subscribers with and without a Last-Event-ID); all interleavings (unbounded, state-key pruning); map iteration: all orders in the racing scenarios, and in the phased ones every permutation in up to 1 (thorough 2) fan-outs per execution with the canonical order elsewhere (ob in the scenario name), so the failing subscriber is visited first, in the middle and last in the fan-out that fails.",
 	Assumptions: []string{
 		"schedules are explored at the granularity of synchronisation operations under sequential consistency (DESIGN.md 2.1)",
 		"for a subscriber that registers after the replayer has panicked there is no registration witness: only exactly-once, order, topic matching and gap-freedom after its first message are checked for it",
